@@ -1579,3 +1579,74 @@ def _flag_sets(cfg, f, call, e):
     if None in poss or "?" in poss:
         return None
     return set(poss)
+
+
+def rule_R12_start_comparator(ctx, typer):
+    """the start-up compares the root component with the comparator it is GIVEN (get hands in the literal comparison, glob
+    the wildcard match): it calls its comparator parameter and no fixed comparison method of the resolver"""
+    cls, funcs = resolver_funcs(ctx.p)
+    f = funcs.get("__start")
+    if f is None:
+        raise AnalysisError("anchor Resolver.__start not found")
+    ps = [x for x in f.posparams if x != f.selfname]
+    if len(ps) < 3:
+        ctx.viol("R12", f, f.node, "Resolver.__start takes no comparator argument: get and glob cannot compare the root component "
+                 "differently", construct="__start: no comparator parameter")
+        return 1
+    cmpp = ps[2]
+    calls = [c for c in walk_own(f.node) if isinstance(c, ast.Call) and isinstance(c.func, ast.Name) and c.func.id == cmpp]
+    fixed = [c for c in walk_own(f.node) if isinstance(c, ast.Call) and isinstance(c.func, ast.Attribute)
+             and c.func.attr in ("__cmp", "__match") and norm(c.func.value) in (f.selfname, "Resolver")]
+    if fixed:
+        ctx.viol("R12", f, fixed[0], "the root component is compared with `%s` instead of the comparator handed in (`%s`): get then "
+                 "accepts wildcard roots / glob compares literally" % (norm(fixed[0].func), cmpp))
+    elif not calls:
+        ctx.viol("R12", f, f.node, "the comparator argument `%s` is never called: the root component is not compared" % cmpp,
+                 construct="__start: comparator unused")
+    else:
+        ctx.inst("R12", f, calls[0], "root component compared through the comparator argument")
+    # and the two entry points hand in their own comparison
+    for entry, want in (("get", "__cmp"), ("glob", "__match")):
+        g = funcs.get(entry)
+        if g is None:
+            continue
+        for c in walk_own(g.node):
+            if isinstance(c, ast.Call) and norm(c.func).endswith("__start") and len(c.args) >= 3:
+                if norm(c.args[2]).endswith(want):
+                    ctx.inst("R12", g, c, "%s hands in %s" % (entry, want))
+                else:
+                    ctx.viol("R12", g, c, "%s starts with the comparator `%s`; specified: %s" % (entry, norm(c.args[2]),
+                                                                                               "literal comparison" if want == "__cmp" else "wildcard match"))
+    return 1
+
+
+def rule_R9_glob_dead_end(ctx, typer):
+    """strict glob raises ChildResolverError only where a literal child name found nothing: the raise sits on the
+    child-matching path (component other than '..', '', '.', '**'), never behind the relative / recursive components"""
+    cls, funcs = resolver_funcs(ctx.p)
+    f = funcs.get("__glob")
+    cfg = typer.cfg_of(f)
+    comp = None
+    partsp = f.posparams[2]
+    for a in walk_own(f.node):
+        if isinstance(a, ast.Assign) and len(a.targets) == 1 and isinstance(a.targets[0], ast.Name) and isinstance(a.value, ast.Subscript) \
+                and norm(a.value.value) == partsp and isinstance(a.value.slice, ast.Constant) and a.value.slice.value == 0:
+            comp = a.targets[0].id
+    if comp is None:
+        return 0
+    n = 0
+    from .common import expand_straightline
+    for rn in cfg.stmt_nodes(("raisestmt",)):
+        exc = expand_straightline(rn, rn.ast.exc) if rn.ast.exc is not None else None
+        if exc is None or "ChildResolverError" not in norm(exc):
+            continue
+        n += 1
+        P, N = _component_constraint(cfg.guards_of(rn), comp)
+        if P is None and {"..", "", ".", "**"} <= N:
+            ctx.inst("R9", f, rn.ast, "ChildResolverError only for a child-name component")
+        else:
+            ctx.viol("R9", f, rn.ast, "ChildResolverError can be raised for components %s: a pattern whose relative ('..', '.', '') or "
+                     "recursive ('**') component is followed by a wildcard that matches nothing is no dead end - strict mode must "
+                     "return the same (empty) list as relaxed mode" % (sorted(P) if P is not None else "other than %s" % sorted(N)),
+                     construct="__glob: ChildResolverError outside the child-name path")
+    return n
